@@ -1,6 +1,166 @@
-//! C03 — not built yet.
-use mcx::{Ctx, Value};
-pub fn run(_ctx: &Ctx, _replay: Option<&Value>) -> i32 {
-    eprintln!("C03: check not built yet");
-    2
+//! C03 — honest execution traces satisfy the entire AIR.
+//!
+//! For every program of the families P1 (+ shapes, + P2 in the thorough tier) x expected-cycles hints
+//! x K stated challenge vectors: the harness' own loop evaluates every main and auxiliary transition
+//! constraint on every non-exempt row and every boundary assertion; the trace length is checked
+//! against the rule of the property; the main trace must be identical for every hint.
+
+use crate::airx;
+use crate::common::*;
+use crate::progs::{self, ProgCase};
+use mcx::{json, Ctx, Value};
+use processor::ExecutionOptions;
+use rayon::prelude::*;
+use std::collections::BTreeMap;
+use std::sync::Mutex;
+use winter_prover::Trace;
+
+const HINTS: [u32; 4] = [64, 128, 1024, 8192];
+
+fn trace_digest(t: &processor::ExecutionTrace) -> Vec<u64> {
+    // every cell of the main segment except the last (random) row
+    let m = t.main_segment();
+    let n = m.num_rows();
+    let mut out = Vec::with_capacity(m.num_cols() * n);
+    for c in 0..m.num_cols() {
+        for r in 0..n - 1 {
+            out.push(vm_core::StarkField::as_int(&m.get(c, r)));
+        }
+    }
+    out
+}
+
+pub fn check_case(ctx: &Ctx, case: &ProgCase, challenges: &[Vec<airx::Q>], hints: &[u32], stats: &Mutex<BTreeMap<String, u64>>) {
+    let cj = || json!({"name": case.name, "src": case.src, "kernel": case.kernel, "stack": case.stack, "advice": case.advice, "merkle": !case.merkle_leaves.is_empty()});
+    let program = match mcx::guard::catch(|| case.assembler().compile(&case.src)) {
+        Ok(Ok(p)) => p,
+        Ok(Err(e)) => panic!("family program {} must assemble: {e}\n{}", case.name, case.src),
+        Err(p) => panic!("assembler panicked on {}: {p}", case.name),
+    };
+    let mut local: BTreeMap<String, u64> = BTreeMap::new();
+    let mut first: Option<Vec<u64>> = None;
+    for &hint in hints {
+        let opts = ExecutionOptions::new(None, hint, false).expect("options");
+        let mut trace = match exec_trace(&program, &case.stack, case.advice_inputs(), opts) {
+            Ok(Ok(t)) => t,
+            Ok(Err(e)) => panic!("family program {} must execute: {e:?}\n{}", case.name, case.src),
+            Err(p) => {
+                ctx.fail(json!({"kind": "execute_panic", "panic": mcx::guard::short_panic(&p)}), format!("{} hint {hint}", case.name), cj());
+                return;
+            }
+        };
+        // --- trace length rule ---------------------------------------------------------------
+        let n = trace.length();
+        let s = *trace.trace_len_summary();
+        let need = s.main_trace_len().max(s.range_trace_len()).max(s.chiplets_trace_len().trace_len());
+        let ok_len = n.is_power_of_two() && n >= 64 && n >= need + 1 && n == s.padded_trace_len() && (n == 64 || n / 2 < need + 1);
+        if !ok_len {
+            ctx.fail(
+                json!({"kind": "trace_length_rule"}),
+                format!("{}: n={n} cycles={} range={} chiplets={} padded={} hint={hint}", case.name, s.main_trace_len(), s.range_trace_len(), s.chiplets_trace_len().trace_len(), s.padded_trace_len()),
+                cj(),
+            );
+        }
+        let dominated = if need == s.main_trace_len() { "main" } else if need == s.range_trace_len() { "range" } else { "chiplets" };
+        *local.entry(format!("len={n}/{dominated}")).or_insert(0) += 1;
+        if need + 1 == n {
+            *local.entry("component_length_exactly_n_minus_1".into()).or_insert(0) += 1;
+        }
+        // --- independence of the capacity hint ------------------------------------------------
+        let d = trace_digest(&trace);
+        match &first {
+            None => first = Some(d),
+            Some(f) => {
+                if *f != d {
+                    ctx.fail(json!({"kind": "trace_depends_on_expected_cycles_hint"}), format!("{} hint {hint} vs {}", case.name, hints[0]), cj());
+                }
+            }
+        }
+        // --- the whole AIR --------------------------------------------------------------------
+        let si = stack_inputs(&case.stack);
+        // all challenge vectors for the first hint, the first vector for the other hints
+        let chs: &[Vec<airx::Q>] = if hint == hints[0] { challenges } else { &challenges[..1] };
+        for (ci, ch) in chs.iter().enumerate() {
+            let r = mcx::guard::catch(|| airx::check_trace(&mut trace, &si, ch, 5));
+            match r {
+                Err(p) => ctx.fail(json!({"kind": "air_evaluation_panic", "panic": mcx::guard::short_panic(&p)}), case.name.clone(), cj()),
+                Ok((failures, evals, _aux)) => {
+                    *local.entry("constraint_evaluations".into()).or_insert(0) += evals;
+                    *local.entry("rows".into()).or_insert(0) += n as u64;
+                    for f in failures.iter().take(3) {
+                        let opcode = crate::airx::opcode_at(&trace, f.row);
+                        ctx.fail(
+                            json!({"kind": f.kind, "index": f.index, "opcode": opcode}),
+                            format!("{}: {} #{} does not hold at row {} (opcode {opcode}), hint {hint}, challenge vector {ci}", case.name, f.kind, f.index, f.row),
+                            cj(),
+                        );
+                    }
+                }
+            }
+        }
+    }
+    let mut st = stats.lock().unwrap();
+    for (k, v) in local {
+        *st.entry(k).or_insert(0) += v;
+    }
+    for t in &case.tags {
+        *st.entry(format!("tag:{t}")).or_insert(0) += 1;
+    }
+}
+
+pub fn family(ctx: &Ctx) -> Vec<ProgCase> {
+    let mut v = progs::p1(ctx.tier == mcx::Tier::Thorough);
+    v.extend(progs::shapes());
+    if ctx.tier == mcx::Tier::Thorough {
+        v.extend(progs::p2());
+    }
+    v
+}
+
+pub fn run(ctx: &Ctx, replay: Option<&Value>) -> i32 {
+    let k = ctx.tier.pick(2, 4);
+    let challenges = airx::challenge_vectors(ctx.seed, k);
+    let stats: Mutex<BTreeMap<String, u64>> = Mutex::new(BTreeMap::new());
+    if let Some(case) = replay {
+        let u = |v: &Value| -> Vec<u64> { v.as_array().map(|a| a.iter().map(|x| x.as_u64().unwrap()).collect()).unwrap_or_default() };
+        let pc = ProgCase {
+            name: case["name"].as_str().unwrap_or("replay").to_string(),
+            src: case["src"].as_str().unwrap().to_string(),
+            kernel: case["kernel"].as_str().map(String::from),
+            stack: u(&case["stack"]),
+            advice: u(&case["advice"]),
+            merkle_leaves: if case["merkle"].as_bool().unwrap_or(false) { progs::MERKLE_LEAVES.to_vec() } else { vec![] },
+            tags: vec![],
+        };
+        println!("program {}:\n{}\nkernel: {:?}\nstack {:?} advice {:?}", pc.name, pc.src, pc.kernel, pc.stack, pc.advice);
+        check_case(ctx, &pc, &challenges, &HINTS, &stats);
+        return ctx.finish("exploration", json!({}), &[]);
+    }
+    let fam = family(ctx);
+    let hints: &[u32] = &HINTS;
+    fam.par_iter().for_each(|c| check_case(ctx, c, &challenges, hints, &stats));
+    for c in fam.iter().step_by(fam.len() / 6 + 1) {
+        ctx.sample(json!({"name": c.name, "src": c.src, "kernel": c.kernel, "stack_depth": c.stack.len()}));
+    }
+    let st = stats.into_inner().unwrap();
+    let lens: BTreeMap<&String, &u64> = st.iter().filter(|(k, _)| k.starts_with("len=")).collect();
+    let cov = json!({
+        "evaluations": fam.len() * hints.len(),
+        "distinct_nontrivial": fam.len(),
+        "rule": "case = (program, expected-cycles hint); programs are pairwise distinct sources/inputs; non-trivial = the program executes at least one operation beyond SPAN/END (all of them do)",
+        "programs": fam.len(),
+        "hints": hints,
+        "challenge_vectors": k,
+        "constraint_evaluations": st.get("constraint_evaluations"),
+        "rows_evaluated": st.get("rows"),
+        "trace_length/dominating_component": lens,
+        "runs_with_a_component_of_length_exactly_n-1": st.get("component_length_exactly_n_minus_1"),
+        "programs_per_component_tag": st.iter().filter(|(k, _)| k.starts_with("tag:")).collect::<BTreeMap<_, _>>(),
+        "exhaustive": true,
+        "bounds": "families P1 (atoms x frames x input regimes) + trace-shape family (+ P2 ordered atom pairs in the thorough tier); K stated challenge vectors derived from VERIF_SEED",
+    });
+    ctx.finish("exploration", cov, &[
+        "\"for any verifier challenge\" is covered by K stated challenge vectors (the aux constraints are polynomial identities in the challenges), not by enumeration of the 2^128 space",
+        "programs outside the families and traces longer than 2^13 rows are not covered",
+    ])
 }
